@@ -81,6 +81,7 @@ type Result struct {
 	Outcome    string // canonical observable outcome (distinct outcomes are counted)
 	States     []string
 	Desc       string // optional description for samples
+	Skip       bool   // not an execution of its own (duplicate pruned by the scheduler): not counted
 }
 
 // Violation record written to the worker output.
@@ -149,6 +150,7 @@ type Runner struct {
 	maxPerCls int
 	lastCkpt  time.Time
 	curLen    int
+	prefixDepth int
 	prevCase  string
 	prevChoices []int
 	// CrashTrace makes the runner record the execution about to start (one pwrite per execution) so
@@ -284,6 +286,10 @@ func (r *Runner) writeCur(caseID string, c []int, a []int, d []bool) {
 }
 
 func (r *Runner) record(caseID string, x *X, res Result, hist []int) {
+	if res.Skip {
+		r.sum.Extra["pruned_duplicates"]++
+		return
+	}
 	r.sum.Evaluations++
 	if r.sum.Evaluations&0xfff == 0 && time.Since(r.lastCkpt) > 2*time.Second {
 		r.checkpoint()
@@ -397,9 +403,38 @@ func panicSite() string {
 	return "?"
 }
 
+// DFSSharded is DFS with the case's tree divided among all shards by the first `depth` choices
+// (every shard walks the tree; a subtree that belongs to another shard costs one execution).
+func (r *Runner) DFSSharded(caseID string, maxDev int, depth int, body func(x *X) Result) {
+	r.prefixDepth = depth
+	defer func() { r.prefixDepth = 0 }()
+	r.DFS(caseID, maxDev, body)
+}
+
+func (r *Runner) ownsPrefix(c []int) bool {
+	d := r.prefixDepth
+	if d == 0 || r.shardN <= 1 {
+		return true
+	}
+	if len(c) < d {
+		return r.shardI == 0
+	}
+	h := uint64(1469598103934665603)
+	for _, v := range c[:d] {
+		h = (h ^ uint64(v+1)) * 1099511628211
+	}
+	return int(h%uint64(r.shardN)) == r.shardI
+}
+
 // DFS enumerates all choice sequences of body for one case. maxDev<0 means no deviation bound.
 func (r *Runner) DFS(caseID string, maxDev int, body func(x *X) Result) {
-	if !r.mine(caseID) {
+	if r.prefixDepth > 0 && r.replay == nil {
+		// every shard takes part
+		if r.resume != nil && r.resume.Case != caseID {
+			return
+		}
+		r.sum.Cases++
+	} else if !r.mine(caseID) {
 		return
 	}
 	if r.replay != nil {
@@ -446,9 +481,15 @@ func (r *Runner) DFS(caseID string, maxDev int, body func(x *X) Result) {
 		// arity of the prefix positions is known from the previous execution
 		r.writeCur(caseID, cur, ar[:min(len(ar), len(cur))], dv[:min(len(dv), len(cur))])
 		x, res := r.runOne(cur, false, body)
-		r.record(caseID, x, res, nil)
 		ar, dv = x.Arity, x.IsDev
-		nxt, ok := step(x.Choices, x.Arity, x.IsDev, maxDev)
+		cs, as, ds := x.Choices, x.Arity, x.IsDev
+		if r.ownsPrefix(x.Choices) {
+			r.record(caseID, x, res, nil)
+		} else if r.prefixDepth > 0 && len(cs) >= r.prefixDepth {
+			// foreign subtree: skip to its next sibling
+			cs, as, ds = cs[:r.prefixDepth], as[:r.prefixDepth], ds[:r.prefixDepth]
+		}
+		nxt, ok := step(cs, as, ds, maxDev)
 		if !ok {
 			break
 		}
